@@ -13,12 +13,23 @@ macro_rules! h {
     };
 }
 
+/// A plain contract harness (no memory primitive is replaced).
+macro_rules! p {
+    ($(#[$m:meta])* $name:ident, $body:expr) => {
+        #[kani::proof]
+        $(#[$m])*
+        fn $name() { $body }
+    };
+}
+
 pub mod ghost;
 pub mod post;
 pub mod types;
 pub mod util;
 
 pub mod k1_lib;
+mod k1_handles;
 mod k2_insert;
 mod k2_remove;
 mod k2_range;
+mod k2_misc;
